@@ -139,6 +139,11 @@ func kindOfDiff(cl []codec.Control, d string) string {
 
 // writeResponse builds a response on a real request decoded from reqBytes and writes it through the real ResponseWriter.
 func writeResponse(reqBytes []byte, requestID int, build func(req *gldap.Request) gldap.Response) (out []byte, panicKey string, err error) {
+	return writeResponseEx(reqBytes, requestID, func(req *gldap.Request, _ *gldap.ResponseWriter) gldap.Response { return build(req) })
+}
+
+// writeResponseEx also hands the ResponseWriter to the builder (for responses that are written more than once).
+func writeResponseEx(reqBytes []byte, requestID int, build func(req *gldap.Request, w *gldap.ResponseWriter) gldap.Response) (out []byte, panicKey string, err error) {
 	panicKey = try(func() {
 		vc, mc, e := newSeam(reqBytes, 7, nil, quietLogger)
 		if e != nil {
@@ -155,7 +160,7 @@ func writeResponse(reqBytes []byte, requestID int, build func(req *gldap.Request
 			err = e
 			return
 		}
-		resp := build(req)
+		resp := build(req, w)
 		if e := w.Write(resp); e != nil {
 			err = e
 			return
